@@ -4,12 +4,12 @@ Expressions are nested lists  [tag, ...]  from a typed, language-neutral vocabul
 Renderers turn one structured query into Python-flavoured or JavaScript-flavoured RBQL text, in many spellings.
 
     ['field', table, idx, spelling]      spelling in 'var' (a3) | 'arr' (a[3]) | 'attr' (a.name) | 'dq' (a["name"]) | 'sq' (a['name'])
-    ['NR'] ['NF'] ['NU'] ['bNR'] ['aNR']
+    ['NR'] ['NF'] ['NU'] ['bNR'] ['aNR']  ['uvar', name]  (a variable defined by the user's init code, see UVARS)
     ['str', s, quote]  ['int', n]
     ['concat', e1, e2]  ['len', e]  ['arith', op, e1, e2]  ['cmp', op, e1, e2]
     ['and', e1, e2] ['or', e1, e2] ['not', e]  ['isnone', e]  ['like', e, pattern_literal]
     ['cond', c, e1, e2]  ['list', [e...]]  ['split', e, sep_literal]  ['tostr', e]
-    python only:  ['int_of', e]  ['upper', e]  ['pymax', e1, e2] ['pymin', e1, e2] ['pysum', [e...]]  ['float_of', e]
+    python only:  ['floordiv', e1, e2]  ['int_of', e]  ['upper', e]  ['pymax', e1, e2] ['pymin', e1, e2] ['pysum', [e...]]  ['float_of', e]
 
 Items of a select list:
     {'kind': 'expr', 'expr': e, 'alias': name|None, 'as_kw': 'as'|'AS'}
@@ -27,14 +27,16 @@ import re
 
 AGG_FUNCS = ['COUNT', 'MIN', 'MAX', 'SUM', 'AVG', 'VARIANCE', 'MEDIAN', 'ARRAY_AGG', 'ANY_VALUE']
 # user functions available to generated queries (defined identically in both init codes); the reference knows what they return
-INIT_PY = "def f(*a):\n    return 'F' + str(len(a))\ndef g(*a):\n    return ['G', len(a)]\n"
-INIT_JS = "function f(...a) { return 'F' + String(a.length); }\nfunction g(...a) { return ['G', a.length]; }\n"
+# user variables whose names merely start like a positional column variable (a1c is not a1) or like a built-in one
+UVARS = {'a1c': 'A1C', 'b2b_rate': 'RATE', 'a2z': 'Z', 'b10x': 'X', 'xa1': 'XA1', 'NR2': 'N2', 'aNRx': 'ANRX', 'a_1': 'A_1'}
+INIT_PY = "def f(*a):\n    return 'F' + str(len(a))\ndef g(*a):\n    return ['G', len(a)]\n" + ''.join('%s = %r\n' % kv for kv in sorted(UVARS.items()))
+INIT_JS = "function f(...a) { return 'F' + String(a.length); }\nfunction g(...a) { return ['G', a.length]; }\n" + ''.join('var %s = %r;\n' % kv for kv in sorted(UVARS.items()))
 
 JOIN_TYPES = ['JOIN', 'INNER JOIN', 'LEFT JOIN', 'LEFT OUTER JOIN', 'STRICT LEFT JOIN']
 
 PY_KEYWORDS = set('False None True and as assert async await break class continue def del elif else except finally for from global if import in is lambda nonlocal not or pass raise return try while with yield'.split())
 JS_KEYWORDS = set('break case catch class const continue debugger default delete do else export extends finally for function if import in instanceof new return super switch this throw try typeof var void while with yield let static enum await null true false length constructor prototype'.split())
-RBQL_WORDS = set('select update join inner left outer strict order by where limit except with from group top distinct count on and as set asc desc nr nf nu'.split())
+RBQL_WORDS = set('select update join inner left outer strict order by where limit except with from group top distinct count on and as set asc desc'.split())
 
 
 def is_identifier(name):
@@ -43,7 +45,7 @@ def is_identifier(name):
 
 def attr_safe(name):
     """Column names usable as a.name in both languages without colliding with anything the engines define."""
-    return is_identifier(name) and name not in PY_KEYWORDS and name not in JS_KEYWORDS and name.lower() not in RBQL_WORDS and name not in ('NR', 'NF', 'storage') and not name.startswith('__')
+    return is_identifier(name) and name not in PY_KEYWORDS and name not in JS_KEYWORDS and name.lower() not in RBQL_WORDS and name not in ('storage',) and not name.startswith('__')
 
 
 def lit(s, quote='\''):
@@ -139,11 +141,15 @@ def render_expr(e, ctx, lang):
         return '%s[%d]' % (R(e[1]), e[2])
     if t == 'paren':
         return '(%s)' % R(e[1])
+    if t == 'uvar':
+        return e[1]
     if t == 'upper':
         return '%s.upper()' % R(e[1]) if lang == 'py' else '%s.toUpperCase()' % R(e[1])
     if lang == 'py':
         if t == 'int_of':
             return 'int(%s)' % R(e[1])
+        if t == 'floordiv':
+            return '(%s // %s)' % (R(e[1]), R(e[2]))
         if t == 'float_of':
             return 'float(%s)' % R(e[1])
         if t == 'upper':
@@ -165,7 +171,7 @@ def is_neutral(e):
         return all(is_neutral(v) for v in e.values())
     if not isinstance(e, list):
         return True
-    if e and isinstance(e[0], str) and e[0] in ('int_of', 'float_of', 'pymax', 'pymin', 'pysum', 'pymaxl'):
+    if e and isinstance(e[0], str) and e[0] in ('int_of', 'float_of', 'pymax', 'pymin', 'pysum', 'pymaxl', 'floordiv'):
         return False
     return all(is_neutral(x) for x in e)
 
@@ -327,13 +333,54 @@ def _scramble_keywords(clause, rng):
     return headpart + rest
 
 
+def _vary_spaces(text, rng, lang):
+    """Replace single spaces outside string literals by other white space (several spaces, a tab, a line break with indentation).
+    A line break is never placed where the next line would start with the language's comment marker."""
+    out = []
+    quote = None
+    i = 0
+    n = len(text)
+    marker = '#' if lang == 'py' else '//'
+    while i < n:
+        c = text[i]
+        if quote:
+            out.append(c)
+            if c == '\\' and i + 1 < n:
+                out.append(text[i + 1])
+                i += 2
+                continue
+            if c == quote:
+                quote = None
+        elif c in '"\'`':
+            quote = c
+            out.append(c)
+        elif c == ' ':
+            r = rng.random()
+            if r < 0.6:
+                out.append(' ')
+            elif r < 0.72:
+                out.append('  ')
+            elif r < 0.8:
+                out.append('\t')
+            elif text[i + 1:].lstrip(' ').startswith(marker):
+                out.append(' ')
+            elif r < 0.92:
+                out.append('\n')
+            else:
+                out.append(' \n   ')
+        else:
+            out.append(c)
+        i += 1
+    return ''.join(out)
+
+
 def respell(q, ctx, rng, lang='py'):
     """One random composition of the spelling transformations of C08 applied to the structured query -> query text."""
     import copy
     q = copy.deepcopy(q)
     cmt = '#' if lang == 'py' else '//'
     # interchangeable spellings on the structure
-    if q.get('top') is not None and rng.random() < 0.5:
+    if q.get('top') is not None and q['kind'] == 'select' and rng.random() < 0.5:
         q['top_kw'] = 'limit' if q.get('top_kw', 'top') == 'top' else 'top'
     if q.get('join'):
         j = q['join']
@@ -377,6 +424,8 @@ def respell(q, ctx, rng, lang='py'):
     parts = [head] + other
     if rng.random() < 0.7:
         parts = [_scramble_keywords(p, rng) for p in parts]
+    if rng.random() < 0.4:
+        parts = [_vary_spaces(p, rng, lang) for p in parts]
     # whitespace between clauses: spaces, tabs, line breaks, comment lines
     out = []
     for i, p in enumerate(parts):
